@@ -29,6 +29,9 @@ type vestMachine struct {
 	restartMixedUnits, denomProposals, upperSpelled, genesisPools               int
 	sentToRecorded, sendSwitchedOff                                             int
 	sendDisabled                                                                bool
+	govOwner                                                                    bool
+	directCliff                                                                 int
+	genesisBalanceOffRefused                                                    int
 	recordedAbsent                                                              []sdk.AccAddress
 	created                                                                     []sdk.AccAddress // vesting accounts created so far
 }
@@ -43,18 +46,33 @@ func (m *vestMachine) fail(f string, a ...interface{}) {
 
 var vestOwners = []int{1, 2, 3}
 
+// ownerAddrs: the accounts that own pools in this history - three key accounts and, in one history
+// in three, the governance module account (its messages arrive through proposals; a treasury that
+// hands out grants with vesting).
+func (m *vestMachine) ownerAddrs() []sdk.AccAddress {
+	var out []sdk.AccAddress
+	for _, i := range vestOwners {
+		out = append(out, KeyAcc(i).Addr)
+	}
+	if m.govOwner {
+		out = append(out, mustAddr(GovAuthority()))
+	}
+	return out
+}
+
 // owner draws an owner, preferring (4:1) owners that already have pools.
 func (m *vestMachine) owner(label string) sdk.AccAddress {
 	var with []sdk.AccAddress
-	for _, i := range vestOwners {
-		if len(m.v.Pools(KeyAcc(i).Addr.String())) > 0 {
-			with = append(with, KeyAcc(i).Addr)
+	all := m.ownerAddrs()
+	for _, a := range all {
+		if len(m.v.Pools(a.String())) > 0 {
+			with = append(with, a)
 		}
 	}
 	if len(with) > 0 && rapid.IntRange(0, 4).Draw(m.t, label+"_pref") > 0 {
 		return with[rapid.IntRange(0, len(with)-1).Draw(m.t, label+"_with")]
 	}
-	return KeyAcc(vestOwners[rapid.IntRange(0, len(vestOwners)-1).Draw(m.t, label)]).Addr
+	return all[rapid.IntRange(0, len(all)-1).Draw(m.t, label)]
 }
 
 type poolSnap struct {
@@ -546,9 +564,22 @@ func (m *vestMachine) actCreateVestingAccount() {
 	end := start + []int64{-1, 0, 1, 1000, 86400 * 365}[rapid.IntRange(0, 4).Draw(t, "len")]
 	toExisted := m.v.AccountBytes(to) != nil
 	balFromPre, balToPre := m.v.Bal(from), m.v.Bal(to)
+	spendPre := m.v.App.BankKeeper.SpendableCoins(m.v.Ctx, from)
 	dg := m.v.StateDigest()
 	res := m.v.Run(&vestingtypes.MsgCreateVestingAccount{FromAddress: m.spell("fromSpelling", from), ToAddress: m.spell("toSpelling", to), Amount: coins, StartTime: start, EndTime: end})
 	m.note("createVestingAccount from=%s to=%s(existed=%v) coins=%s start=%d end=%d -> ok=%v", from, to, toExisted, coins, start, end, res.OK())
+	if m.on["C08"] && !coins.Empty() {
+		// documented acceptance: a schedule with start <= end (start == end is a cliff), a recipient without account
+		// that may receive coins, coins the sender can spend, transfers of the denomination enabled
+		want := start <= end && !toExisted && !m.v.App.BankKeeper.BlockedAddr(to) && spendPre.IsAllGTE(coins) && !m.sendDisabled
+		if want != res.OK() {
+			m.fail("direct creation from=%s to=%s(existed=%v) coins=%s (sender can spend %s) start=%d end=%d: accepted=%v, expected %v (%v %v)", from, to, toExisted, coins,
+				spendPre, start, end, res.OK(), want, res.Err, res.Panic)
+		}
+		if start == end && res.OK() {
+			m.directCliff++
+		}
+	}
 	if res.OK() {
 		m.created = append(m.created, to)
 		if m.on["C08"] {
@@ -677,6 +708,34 @@ func (m *vestMachine) seedGenesisPools() {
 		m.fail("harness: generated vesting genesis does not validate: %v", err)
 	}
 	FundModule(m.v.App, m.v.Ctx, vestingtypes.ModuleName, sdk.NewCoins(sdk.NewCoin(Denom, total)))
+	if off := []int64{0, 0, 0, 0, 1, -1, 1_000_000}[rapid.IntRange(0, 6).Draw(t, "genesisBalanceOff")]; off != 0 && total.IsPositive() {
+		// a genesis file whose bank section gives the module account more or less than its pools account for
+		// cannot start a chain on which the identity holds: it has to be refused
+		if off > 0 {
+			FundModule(m.v.App, m.v.Ctx, vestingtypes.ModuleName, sdk.NewCoins(sdk.NewInt64Coin(Denom, off)))
+		} else if err := m.v.App.BankKeeper.SendCoinsFromModuleToAccount(m.v.Ctx, vestingtypes.ModuleName, KeyAcc(4).Addr, sdk.NewCoins(sdk.NewInt64Coin(Denom, -off))); err != nil {
+			panic(err)
+		}
+		var pan interface{}
+		func() {
+			defer func() { pan = notRapid(recover()) }()
+			c, _ := m.v.Ctx.CacheContext()
+			cfevesting.InitGenesis(c, m.v.App.CfevestingKeeper, *gs, m.v.App.AccountKeeper, m.v.App.BankKeeper, m.v.App.StakingKeeper)
+		}()
+		m.note("genesis whose module account balance is off by %d: refused=%v", off, pan != nil)
+		if pan == nil {
+			m.fail("a genesis in which the vesting module account holds %s%s while the pools account for %s was accepted", total.AddRaw(off), Denom, total)
+		}
+		m.genesisBalanceOffRefused++
+		// the operator corrects the bank section
+		if off > 0 {
+			if err := m.v.App.BankKeeper.SendCoinsFromModuleToAccount(m.v.Ctx, vestingtypes.ModuleName, KeyAcc(4).Addr, sdk.NewCoins(sdk.NewInt64Coin(Denom, off))); err != nil {
+				panic(err)
+			}
+		} else {
+			FundModule(m.v.App, m.v.Ctx, vestingtypes.ModuleName, sdk.NewCoins(sdk.NewInt64Coin(Denom, -off)))
+		}
+	}
 	cfevesting.InitGenesis(m.v.Ctx, m.v.App.CfevestingKeeper, *gs, m.v.App.AccountKeeper, m.v.App.BankKeeper, m.v.App.StakingKeeper)
 	m.genesisPools++
 	m.note("genesis pools %s", jsonStr(gs.AccountVestingPools))
